@@ -229,6 +229,35 @@ func (m ModuleSpec) ModuleData(ctx context.Context) (bufmodule.ModuleKey, bufmod
 	if err != nil {
 		return nil, nil, err
 	}
+	data, err := m.ModuleDataForKey(ctx, key)
+	return key, data, err
+}
+
+// WithDigestType returns the same module (files, side objects, dependency names and commits)
+// described for the other digest type: the dependency digests carry that type's prefix.
+func (m ModuleSpec) WithDigestType(dt string) ModuleSpec {
+	out := m
+	out.DigestType = dt
+	prefix := "b5:"
+	if dt == "b4" {
+		prefix = "shake256:"
+	}
+	out.Deps = make([]DepSpec, len(m.Deps))
+	for i, d := range m.Deps {
+		d.Digest = prefix + d.Digest[strings.IndexByte(d.Digest, ':')+1:]
+		out.Deps[i] = d
+	}
+	return out
+}
+
+// ModuleDataForKey builds the ModuleData of this module bound to the REQUESTING key, as a
+// registry download does: the key's pinned digest is what the data is verified against.
+func (m ModuleSpec) ModuleDataForKey(ctx context.Context, key bufmodule.ModuleKey) (bufmodule.ModuleData, error) {
+	_, data, err := m.moduleDataWithKey(ctx, key)
+	return data, err
+}
+
+func (m ModuleSpec) moduleDataWithKey(ctx context.Context, key bufmodule.ModuleKey) (bufmodule.ModuleKey, bufmodule.ModuleData, error) {
 	deps, err := m.DepKeys()
 	if err != nil {
 		return nil, nil, err
